@@ -173,25 +173,26 @@ def c15(tier):
         v = next(vi)
         res.validated += 1
         key = {"kind": None, "feature": f, "vis": vis, "custom_name": custom, "enum_vis": ev, "site": site, "probe": kind}
-        repro = src if ext != "SIB" else "// crate c15:\n" + sib[di] + "\n// sibling crate:\n" + src
+        repro = src if ext != "SIB" else sib[di]
+        sibling = {"sibling.rs": src} if ext == "SIB" else {}
         if want is True:
             res.outcome("positive-probe")
             if not v.ok:
                 key["kind"] = "item-not-accessible-where-requested"
-                res.violation(key, {"attr": attr, "rustc": v.to_json()}, {"repro.rs": repro + "\nfn main() {}\n"})
+                res.violation(key, {"attr": attr, "rustc": v.to_json(), "cfgs": cfgs}, dict({"repro.rs": repro + ("\nfn main() {}\n" if not sibling else "")}, **sibling))
         elif want is False:
             res.outcome("negative-probe")
             res.nontrivial.add((di, site, kind))
             if v.ok:
                 key["kind"] = "item-accessible-beyond-requested-visibility"
-                res.violation(key, {"attr": attr}, {"repro.rs": "// must NOT compile (privacy), but does:\n" + repro + "\nfn main() {}\n"})
+                res.violation(key, {"attr": attr, "cfgs": cfgs}, dict({"repro.rs": "// must NOT compile (privacy), but does:\n" + repro + ("\nfn main() {}\n" if not sibling else "")}, **sibling))
             elif not (set(v.codes) & (PRIV_CODES | FALLBACK_CODES)):
                 res.machinery_error("negative probe failed for a non-privacy reason: %s %s %s" % (attr, site, v.errors[:2]))
         else:
             res.outcome("default-name-absent-probe")
             if v.ok:
                 key["kind"] = "default-name-still-exists"
-                res.violation(key, {"attr": attr}, {"repro.rs": "// must NOT compile (the item was renamed), but does:\n" + repro + "\nfn main() {}\n"})
+                res.violation(key, {"attr": attr, "cfgs": cfgs}, {"repro.rs": "// must NOT compile (the item was renamed), but does:\n" + repro + "\nfn main() {}\n"})
             elif not (set(v.codes) & ({"E0599", "E0412", "E0425", "E0433"} | FALLBACK_CODES)):
                 res.machinery_error("default-name probe failed for another reason: %s %s" % (attr, v.errors[:2]))
     shutil.rmtree(os.path.join(WORK, "c15"), ignore_errors=True)
@@ -225,7 +226,7 @@ def c15(tier):
         if not want:
             if v.ok:
                 res.violation({"kind": "helper-item-reachable-from-outside", "helper": hname, "config": cfg.describe(), "archetype": k},
-                              {"source": src}, {"repro.rs": "// must NOT compile (helper must be private), but does with --cfg p_root:\n" + src + "\nfn main() {}\n"})
+                              {"source": src, "cfgs": [pc]}, {"repro.rs": "// must NOT compile (helper must be private), but does with --cfg p_root:\n" + src + "\nfn main() {}\n"})
             elif not (set(v.codes) & PRIV_CODES):
                 res.machinery_error("helper probe failed for a non-privacy reason: %s %s" % (hname, v.errors[:2]))
     res.extra["helpers_found"] = {k: sorted(sp["helpers"]) for k, sp in spaces.items()}
